@@ -116,3 +116,35 @@ JOBS.update({
         wall_quick=55, wall_thorough=1200,
         assumptions=["one recording window per object per run; the true trajectory is sampled by the harness at every instant boundary (integer-grid times make the reference integral exact)"]),
 })
+
+JOBS.update({
+    "C15": dict(level="exploration",
+        rule="seed -> 1-4 real threads under the baton scheduler, each with a dirty pre-seed history (flips, cached-parameter samplers, earlier seedings), a seeding and a list of sampler calls; outputs compared bit for bit with the same call list in a fresh thread and, for raw calls, with an independent sfc64/splitmix64 implementation; "
+             "distinct = distinct trace hashes; non-trivial = a dirty history and at least one baton hand-over",
+        jobs=[J("rng", "rel", 8000, 400000), J("rng", "san", 1500, 50000)],
+        wall_quick=55, wall_thorough=900,
+        assumptions=["threads interleave at call granularity (a race inside one call is out of reach of a serialising scheduler)",
+                     "24 sampler kinds with fixed admissible parameters; seeds 0, 1, 2^64-1, the dummy seed and random ones"]),
+    "C19": dict(level="exploration",
+        rule="seed -> cimba_run_experiment called for real with wrapped pthread_create/join/cpu-count: 1-9 worker threads parked and released by the baton scheduler at yield points inside the trial function, 1-48 trials of six content kinds, element sizes 9-200 bytes; exactly-once ledger and byte comparison with each trial run alone in a fresh thread and with a one-after-another run; "
+             "distinct = distinct trace hashes; non-trivial = some worker ran more than one trial and the baton changed hands",
+        jobs=[J("experiment", "rel", 6000, 150000), J("experiment", "san", 1500, 30000)],
+        wall_quick=55, wall_thorough=900,
+        assumptions=["processes that compete for the same waiting list inside a trial have distinct priorities (the library breaks remaining ties by memory address, which differs between runs by design of malloc, not of cimba)",
+                     "the number of worker threads itself is not judged"]),
+    "C10": dict(level="exploration",
+        rule="every engine's valid-program generator on the release-assert build (gcc -O3 -DNDEBUG) and on the ASan+UBSan build, plus growth templates (waiters on both sides of 8 and 16, thousands of armed timers and queued objects crossing 64 tag-pool chunks, histories beyond 1024 samples) and utility-class call sequences from the dispatcher and from inside a process; "
+             "a run is a violation when the process dies (library assertion, SIGSEGV, SIGFPE, watchdog) or a sanitizer reports; distinct = distinct trace hashes; non-trivial by each engine's rule",
+        jobs=[J("procs", "rel", 60000, 1500000, cfg="mix=all,faults=2", only="C10"), J("procs", "san", 16000, 400000, cfg="mix=all,faults=2", only="C10"),
+              J("procs", "rel", 3000, 60000, cfg="mix=all,faults=2,crowd=1", only="C10"), J("procs", "san", 1000, 20000, cfg="mix=all,faults=2,crowd=1", only="C10"),
+              J("procs", "rel", 300, 6000, cfg="mix=all,faults=1,big=1,rec=1", only="C10"), J("procs", "san", 100, 2000, cfg="mix=all,faults=1,big=1,rec=1", only="C10"),
+              J("procs", "san", 4000, 100000, cfg="mix=wait,faults=2,crowd=1", only="C10"),
+              J("util", "rel", 30000, 800000, only="C10"), J("util", "san", 8000, 200000, only="C10"),
+              J("events", "rel", 30000, 800000, only="C10"), J("events", "san", 8000, 200000, only="C10"),
+              J("hheap", "san", 10000, 300000, only="C10"), J("coro", "san", 10000, 300000, only="C10"),
+              J("mempool", "san", 2000, 60000, only="C10"), J("rng", "san", 2000, 60000, only="C10"), J("experiment", "san", 800, 20000, only="C10")],
+        wall_quick=58, wall_thorough=1500,
+        assumptions=["validity standard: the preconditions documented in include/*.h (where the header is silent, the call is valid)",
+                     "UBSan alignment/null/object-size checks are off (one deliberate misaligned store in cmi_coroutine_context_init; the offsetof-via-null idiom in cmi_slist.h)",
+                     "floating-point traps inside processes are judged on the gcc build only (clang raises a spurious invalid-operation exception in double->uint64 conversions)"]),
+})
